@@ -2125,6 +2125,11 @@ def run(ctx):
     ctx.soft(rule_R2, world, tracer)
     facts = ctx.soft(rule_R3, world, tracer, reach)
     ctx.soft(rule_R4, world, tracer, reach, facts)
+    # the tree's queries hand out lists in the order the reference semantics gives (a query re-typed to a set is an
+    # order that depends on the hash seed): same rule object as C06 / C07.TS
+    from . import _premises
+
+    _premises.tree_editor(ctx, owners=("tree.Tree",))
 
 
 # Self-test catalogue: one small textual edit each, applied to a scratch copy (see selftest.py).
